@@ -5,7 +5,7 @@ from vf.lazy import ck, libx, common
 from vf.monitors import algos
 
 PROP = "C11"
-TECHNIQUE = ("schedule control: the library's random draws run through a scripted source; all pivot sequences enumerated depth-first (n<=5 / 7); existential possible-output oracle + step-by-step check against the observed chooser; worst-case pivot chains on 1000+ elements; same KwikSort object again after an in-place mutation")
+TECHNIQUE = ("schedule control: the library's random draws run through a scripted source; all pivot sequences enumerated depth-first (n<=5 / 7); existential possible-output oracle + step-by-step check against the observed chooser; worst-case pivot chains on 1000+ elements; same KwikSort object again after an in-place mutation; scheme class with independent zero patterns of the unranked penalties; KwikSort object reused from other datasets and schemes")
 RULE = ("cases = dataset (D8 near-unanimous = coherent by construction, identical rankings, D3/D4 incomplete with ties, "
         "D9 cycles, D2, D11) x scheme (S1-S3, S6); the pivot chooser is driven by a scripted random source: ALL pivot "
         "sequences are enumerated depth-first for n<=5 (quick) / n<=7 (thorough), 150 random sequences for larger n; "
